@@ -57,7 +57,7 @@ def setup():
 
 
 TARGETS = ["A", "b", "&", "<", ">", '"', "'", "&amp;", "]]>", "é", "ß", "Ж", "中", "\U0001F600", "\t", "\x01", "\x0b", "\x1f", " ", "x<y>&z", "​", "ﬁ", "f\x0ci", "a\x01b", "\x02\x03", "<\x1f>", "\ufeff", "a\ufeffb", "%", "%d%s", "{}", "\\n", "\x7f", "\u2028"]
-NAMES = [b"Plain", b"A&B", b"x<y", b"q\"uote", b"it's", b"a>b", b"na\xc3\xafve", b"semi;colon", b"A B", b"&lt;", b"Fm1", b"Half%Tone", b"Rate%s", b"100%%Pure", b"{0}", b"a\\1b", b"%(x)s"]
+NAMES = [b"Plain", b"A&B", b"x<y", b"q\"uote", b"it's", b"a>b", b"na\xc3\xafve", b"semi;colon", b"A B", b"&lt;", b"Fm1", b"Half%Tone", b"Rate%s", b"100%%Pure", b"{0}", b"a\\1b", b"%(x)s", b"ABCDEF+Sub-Font", b"Trailing+", b"a+b+c"]
 LA = {"default": {}, "noflow": {"boxes_flow": None}, "alltexts": {"all_texts": True}, "vertical": {"detect_vertical": True, "all_texts": True}, "tight": {"char_margin": 0.5, "line_margin": 0.1}}
 
 
